@@ -60,7 +60,7 @@ class WorldC07(World):
                 'jump_rate': rng.choice([0.0, 0.2, 0.5]), 'n_surf': rng.choice([1, 1, 2]),
                 'route': rng.choice(['organize', 'manual', 'manual']), 'n_rxn': rng.choice([0, 1, 3, 6, 12, 40]),
                 'n_inter': rng.choice([0, 0, 2, 5, 10]), 'kinds': rng.choice([['Nasa'], ['Nasa', 'Shomate'], ['Nasa', 'Shomate', 'Nasa9']]),
-                'w_model': rng.choice([1, 2, 3]), 'w_write': rng.choice([2, 3]), 'enum': tier == 'thorough' and rng.random() < 0.15}
+                'w_model': rng.choice([1, 2, 3]), 'w_write': rng.choice([2, 3]), 'w_reactor': rng.choice([1, 1, 3]), 'enum': tier == 'thorough' and rng.random() < 0.15}
 
     def n_steps(self, rng, swarm):
         return rng.randint(5, 18)
@@ -185,7 +185,7 @@ class WorldC07(World):
                 built[row['name']] = rng.choice(['none', 'none', 'empty', 'list', 'partial'])
             return {'c': c, 'op': 'mkphases', 'args': {'built': built}}
         jump = gen_jump(rng) if rng.random() < sw['jump_rate'] else None
-        kinds = ['model'] * sw['w_model'] + ['write'] * sw['w_write'] + ['reactor']
+        kinds = ['model'] * sw['w_model'] + ['write'] * sw['w_write'] + ['reactor'] * sw.get('w_reactor', 1)
         kind = rng.choice(kinds)
         if kind == 'model':
             pname = rng.choice(sorted(self.phases))
